@@ -342,7 +342,11 @@ impl ActorProperties {
     /// Wait for the actor to exit
     pub(crate) async fn wait(&self) {
         let notified = self.wait_handler.notified();
+        #[cfg(slawlor_ractor_verif)]
+        crate::actor::verif::point("wait.after_notified");
         if self.get_status() != ActorStatus::Stopped {
+            #[cfg(slawlor_ractor_verif)]
+            crate::actor::verif::point("wait.after_status");
             notified.await;
         }
     }
@@ -359,6 +363,8 @@ impl ActorProperties {
 
     pub(crate) fn notify_stop_listener(&self) {
         self.wait_handler.notify_waiters();
+        #[cfg(slawlor_ractor_verif)]
+        crate::actor::verif::point("notify.between");
         // Preserve one permit for a waiter created after the actor stopped.
         self.wait_handler.notify_one();
     }
